@@ -7,6 +7,7 @@ import copy
 import itertools
 import json
 import math
+import random
 import re
 
 from .common import paths
@@ -129,6 +130,48 @@ def guarded(f):
         return {"err": "ValueError"}
     except TypeError:
         return {"err": "TypeError"}
+
+
+def guarded_eq(f):
+    """`==` / `!=` of real nodes: {"ok": bool} or the exception enum"""
+    try:
+        v = f()
+    except AttributeError:
+        return {"err": "AttributeError"}
+    except TypeError:
+        return {"err": "TypeError"}
+    return {"ok": v} if isinstance(v, bool) else {"err": "not-a-bool:" + type(v).__name__}
+
+
+def real_heads(top):
+    """is_head() of every non-terminal, pre-order: True / False / None or the exception name"""
+    out = []
+
+    def rec(n):
+        if isinstance(n, D.UDFNode):
+            try:
+                out.append(n.is_head())
+            except AttributeError:
+                out.append("AttributeError")
+            for d in n.daughters:
+                rec(d)
+    rec(top)
+    return out
+
+
+ALL_FIELDS = ["form", "tokens", "id", "entity", "score", "start", "end", "daughters", "head", "type"]
+OPTIONAL_FIELDS = ["tokens", "id", "entity", "score", "start", "end", "head", "type"]
+
+
+def restrict_dict(d, fields):
+    """naive re-statement of the allowlist: drop every optional key whose name is not listed, at every level"""
+    out = {}
+    for k, v in d.items():
+        if k == "daughters":
+            out[k] = [restrict_dict(x, fields) for x in v]
+        elif k in ("form",) or k in fields:
+            out[k] = v
+    return out
 
 
 def canon_dict(d):
@@ -289,6 +332,12 @@ TFS_PARTS = ["token", "[", "]", "+FORM", "\\\"dog\\\"", "+FROM", "\\\"0\\\"", "\
              "+TO", "\\\"3\\\"", "x\\\\\\\"y", "é", "#1=", "<", ">"]
 
 
+SPAN_EDGES = [-1, -1, 0, 0, 1, -2, 255, 2**31, 2**32, 2**63, -2**31]
+# white space and line-boundary characters besides ' ' and '\n' (str.splitlines() / \s honour them)
+ODD_WS = ["\t", "\r", "\r\n", "\x0b", "\x0c", "\x1c", "\x1d", "\x1e", "\x85", "\u2028", "\u2029", "\u3000", "\xa0",
+          "\u2003", "\x00"]
+
+
 def gen_tfs(rng, allow_nl, allow_paren):
     n = rng.choice([0, 1, 2, 3, 4, 5, 6, 8])
     parts = []
@@ -301,6 +350,9 @@ def gen_tfs(rng, allow_nl, allow_paren):
     s = sep.join(parts)
     if allow_nl and parts and rng.random() < 0.5:
         s = s.replace(" ", "\n", 1) if " " in s else s + "\n"
+    if rng.random() < 0.06:
+        w = rng.choice(ODD_WS)
+        s = rng.choice([s + w, w + s, s.replace(" ", w, 1) if " " in s else s + w + "x"])
     return s
 
 
@@ -316,6 +368,9 @@ def gen_form(rng, allow_nl, allow_paren):
         f = f.replace("(", "[")
     if allow_nl and rng.random() < 0.5:
         f = f + "\n" + rng.choice(["", "z"])
+    if rng.random() < 0.06:
+        w = rng.choice(ODD_WS)
+        f = rng.choice([f + w, w + f, f + w + "z"])
     return f
 
 
@@ -361,7 +416,7 @@ class Gen:
         ty = rng.choice(TYPES) if rng.random() < 0.35 else None
         if self.tfam and rng.random() < 0.6:
             ty = rng.choice(self.tfam)
-        st = self.pos if rng.random() < 0.9 else -1
+        st = self.pos if rng.random() < 0.85 else rng.choice(SPAN_EDGES)
         if dep <= 1 or rng.random() < 0.3:
             ds = [self.term()]
             self.pos += 1
@@ -372,7 +427,7 @@ class Gen:
             ds = [self.node(dep - 1, maxb, weird) for _ in range(nb)]
             if weird and rng.random() < 0.3:
                 ds.insert(rng.randrange(len(ds) + 1), self.term())
-        en = self.pos if rng.random() < 0.9 else -1
+        en = self.pos if rng.random() < 0.85 else rng.choice(SPAN_EDGES)
         return N(nid, e, sc, st, en, ds, h, ty)
 
     def tree(self, dep=None, weird=False):
@@ -433,6 +488,25 @@ def enum_small_trees():
     out.append(N(1, "a", "-1", 0, 3, [N(2, "b", "0", 0, 1, [T("x")]), phr]))
     out.append(N(1, "a", "-1", 0, 3, [phr, N(2, "b", "0", 0, 1, [T("x")])]))
     out.append(R("ROOT", [N(1, "a", "-1", 0, 3, [N(2, "b", "0", 0, 1, [T("x")]), phr, N(6, "f", "0", 3, 4, [T("w")])])]))
+    # boundary spans and ids: 0, -1, zero-width, descending, beyond machine sizes
+    for st, en in ((0, 0), (-1, 0), (0, -1), (3, 0), (2**31, 2**31 + 1), (2**63, 2**64), (-2, -3), (255, 256)):
+        out.append(N(0, "a", "0", st, en, [T("x", [(0, "t")])]))
+        out.append(R("root", [N(1, "a", "0", st, en, [N(0, "b", "0", en, st, [T("x")], True),
+                                                       N(2**63, "c", "-0.25", st, st, [T("y")])])]))
+    # every odd white-space / line-boundary character inside a form and inside a tfs string
+    for i, w in enumerate(ODD_WS):
+        out.append(N(1, "a", "-1", 0, 1, [T("x" + w + "y", [(1, "t" + w), (2, w + "u" + w + w)])]))
+        out.append(R("root", [N(1, "a", "-1", 0, 2, [N(2, "b", "0", 0, 1, [T(w)]), N(3, "c", "0", 1, 2, [T("z" + w)])])]))
+    # size: a terminal with 40 tokens, a node with 30 daughters, a unary chain 25 deep, a 5000-character tfs
+    out.append(N(1, "a", "-1", 0, 1, [T("many", [(i * 3 % 41, "tok%d \\\"q\\\"" % i) for i in range(40)])]))
+    out.append(R("root", [N(1, "wide", "-1", 0, 30,
+                            [N(10 + i, "d%d" % i, "0", i, i + 1, [T("w%d" % i, [(i, "t")] * (i % 3))], i == 17,
+                               "ty" if i % 7 == 0 else None) for i in range(30)])]))
+    chain = N(100, "leaf", "0", 0, 1, [T("deep", [(1, "t"), (2, "u")])], True, "lt")
+    for i in range(25):
+        chain = N(99 - i, "u%d" % i, "0", 0, 1, [chain], i % 2 == 0, "c" if i % 5 == 0 else None)
+    out.append(chain)
+    out.append(N(1, "a", "-1", 0, 1, [T("long " * 300, [(1, "[ +FORM \\\"x\\\" ] " * 300), (2, "y" * 5000)])]))
     # unary chain, ternary branching
     c = N(4, "d", "2e-05", 0, 1, [T("z", [(0, ""), (1, " "), (2, "]")])], True, None)
     out.append(N(1, "a", "-1", 0, 1, [N(2, "b", "-1", 0, 1, [N(3, "c", "-1", 0, 1, [c])])]))
@@ -452,6 +526,38 @@ def lkb_text(rng, t):
         k[0] += 1
         return '"%s%d%s%d)' % (rng.choice([" ", "  ", "\n "]), k[0] - 1, rng.choice([" ", "\t"]), k[0])
     return re.sub(r'"\)', rep, text)
+
+
+WS_DELIMS = [" ", "  ", "\t", "\n", "\r\n", " \t ", "\x0b", "\x0c", "\x1c", "\x85", "\u2028", "\u2029", "\u3000", "\xa0",
+             "\n    ", "\r"]
+
+
+def ws_variant(rng, text, only=None):
+    """the text with every delimiter (a space outside quoted strings) replaced by other white space, and white
+    space inserted before ')' / after '(' at random"""
+    out = []
+    inq = False
+    i = 0
+    while i < len(text):
+        c = text[i]
+        if inq:
+            out.append(c)
+            if c == "\\":
+                i += 1
+                out.append(text[i])
+            elif c == '"':
+                inq = False
+        elif c == '"':
+            inq = True
+            out.append(c)
+        elif c == " ":
+            out.append(only if only is not None else rng.choice(WS_DELIMS))
+        elif c == ")" and i + 1 < len(text) and rng.random() < 0.2:
+            out.append((only if only is not None else rng.choice(WS_DELIMS)) + c)
+        else:
+            out.append(c)
+        i += 1
+    return "".join(out)
 
 
 MUT_CHARS = list('()" \\^@1a\n\t') + ['("', '")', ' (', '))', '1 a -1 0 1 (', '"x"', ' 2 "t"', ' 1 2']
@@ -504,9 +610,138 @@ HAND_DICTS = [
 ]
 
 
+FIELD_SETS = ([None, [], list(ALL_FIELDS), list(reversed(ALL_FIELDS)), ["form", "daughters"]]
+              + [[f] for f in OPTIONAL_FIELDS]
+              + [[x for x in ALL_FIELDS if x != f] for f in OPTIONAL_FIELDS]
+              + [["entity", "entity", "id"], ["id", "label"], ["Form"], ["entity", ""], ["ids", "entity"]])
+BAD_FIELDS = ["label", "Form", "", "ids", "ID", "from", "to", "tfs", "parent", "daughter"]
+
+
+def gen_fields(rng):
+    r = rng.random()
+    if r < 0.25:
+        return None
+    fl = [f for f in ALL_FIELDS if rng.random() < 0.6]
+    if rng.random() < 0.2:
+        fl = fl + fl[:2]
+    rng.shuffle(fl)
+    if r > 0.9:
+        fl.insert(rng.randrange(len(fl) + 1), rng.choice(BAD_FIELDS))
+    return fl
+
+
+VARY_EQUAL = ["none", "id", "score", "tokid", "case"]
+VARY_UNEQUAL = ["entity", "type", "span-start", "span-end", "form", "tfs", "tokdrop", "tokadd", "dropdtr", "adddtr",
+                "term-vs-node"]
+VARY_OTHER = ["head", "swapdtr", "root"]
+VARY_OPS = VARY_EQUAL + VARY_UNEQUAL + VARY_OTHER
+
+
+def vary(rng, t, op):
+    """a copy of `t` changed at ONE point by `op`; None when the operation does not apply"""
+    b = copy.deepcopy(t)
+    nodes = list(walk(b))
+    inner_nodes = [n for n in nodes if n["k"] == "n"]
+    terms = [n for n in nodes if n["k"] == "t"]
+    if op == "none":
+        return b
+    if op == "root":
+        if b["k"] == "r":
+            return b["d"][0] if b["d"] and b["d"][0]["k"] == "n" else None
+        return R(rng.choice(ROOTS), [b])
+    if op in ("id", "score", "case", "entity", "type", "span-start", "span-end", "head"):
+        cands = inner_nodes if op != "case" and op != "entity" else [n for n in nodes if n["k"] != "t"]
+        if not cands:
+            return None
+        n = rng.choice(cands)
+        if op == "id":
+            n["id"] = n["id"] + rng.choice([1, -1, 1000, 2**31])
+        elif op == "score":
+            n["sc"] = cps(rng.choice([x for x in SCORES if cps(x) != n["sc"]]))
+        elif op == "case":
+            e = uncps(n["e"])
+            if e.swapcase() == e or e.swapcase().lower() != e.lower():
+                return None
+            n["e"] = cps(e.swapcase())
+        elif op == "entity":
+            n["e"] = cps(uncps(n["e"]) + rng.choice(["x", "_", "2"]))
+        elif op == "type":
+            old = n["ty"]
+            new = rng.choice([None] + TYPES)
+            if new is not None and old is not None and uncps(old) == new or (new is None and old is None):
+                new = (uncps(old) if old is not None else "") + "z"
+            n["ty"] = ocps(new)
+        elif op == "span-start":
+            n["st"] = n["st"] + rng.choice([1, -1, 2**31])
+        elif op == "span-end":
+            n["en"] = n["en"] + rng.choice([1, -1, 2**31])
+        elif op == "head":
+            n["h"] = not n["h"]
+        return b
+    if op in ("form", "tfs", "tokid", "tokdrop", "tokadd"):
+        cands = terms if op in ("form", "tokadd") else [x for x in terms if x["toks"]]
+        if not cands:
+            return None
+        x = rng.choice(cands)
+        if op == "form":
+            x["f"] = cps(uncps(x["f"]) + rng.choice(["s", " ", "X"])) if rng.random() < 0.7 else \
+                cps(uncps(x["f"]).swapcase() if uncps(x["f"]).swapcase() != uncps(x["f"]) else uncps(x["f"]) + "q")
+        elif op == "tokadd":
+            x["toks"].insert(rng.randrange(len(x["toks"]) + 1), [rng.choice([0, 3, 99]), cps("new")])
+        else:
+            i = rng.randrange(len(x["toks"]))
+            if op == "tfs":
+                x["toks"][i][1] = cps(uncps(x["toks"][i][1]) + rng.choice(["]", " ", "A"]))
+            elif op == "tokid":
+                x["toks"][i][0] = x["toks"][i][0] + rng.choice([1, 10, 2**40])
+            else:
+                del x["toks"][i]
+        return b
+    if op in ("dropdtr", "swapdtr", "adddtr"):
+        cands = [n for n in inner_nodes if len(n["d"]) >= (1 if op == "adddtr" else 2)]
+        if not cands:
+            return None
+        n = rng.choice(cands)
+        if op == "dropdtr":
+            del n["d"][rng.randrange(len(n["d"]))]
+        elif op == "adddtr":
+            n["d"].append(copy.deepcopy(n["d"][-1]))
+        else:
+            i = rng.randrange(len(n["d"]) - 1)
+            n["d"][i], n["d"][i + 1] = n["d"][i + 1], n["d"][i]
+        return b
+    if op == "term-vs-node":
+        cands = [n for n in inner_nodes if len(n["d"]) == 1 and n["d"][0]["k"] == "t"]
+        if not cands:
+            return None
+        n = rng.choice(cands)
+        n["d"] = [N(99, "w", "0", n["st"], n["en"], [n["d"][0]])]
+        return b
+    raise ValueError(op)
+
+
+def ws_case(rng, t, udx, only=None):
+    t = copy.deepcopy(t)
+    for n in walk(t):
+        if n["k"] != "t" and '"' in uncps(n["e"]):      # the delimiter finder below tracks quotes
+            n["e"] = cps("ent")
+    top = build_top(t)
+    plain = top.to_udx(indent=None) if udx else top.to_udf(indent=None)
+    return {"kind": "ws", "s": cps(ws_variant(rng, plain, only)), "tree": t, "udx": udx, "plain": plain}
+
+
+def eq_case(a, b, op):
+    try:
+        build_top(a), build_top(b)
+    except Exception:
+        return None
+    return {"kind": "eq", "a": a, "b": b, "op": op}
+
+
 class C16(Check):
     pid = "C16"
-    quick_cases = 4000
+    props_modules = ["Verif.C16.Props", "Verif.C16.PropsEq"]
+    quick_cases = 3000
     thorough_cases = 30000
     rule = ("derivation trees to depth 5, branching <= 3, with/without root, head marks and types on any non-root "
             "node, terminals with 0-3 tokens whose tfs strings contain escaped quotes, backslashes, brackets and "
@@ -517,7 +752,15 @@ class C16(Check):
             "non-terminal or its text is non-empty; distinct by JSON text.  Entity, type and form alphabets contain "
             "case variants of one name (Foo/foo/FOO, np_x/NP_X, Typ/typ, dog/Dog); a third of the trees draw several "
             "capitalisations of one name; every tree case is also run on its case-swapped twin and re-parsed afterwards "
-            "(purity).")
+            "(purity).  Round 6: every tree case carries a `fields` allowlist for to_dict (all 31 deterministic sets "
+            "incl. unknown names, then random subsets); `eq` cases compare a tree with a one-point variant (19 "
+            "operations: id, score, token id, entity case, entity, type, span, form, tfs, tokens, daughters, head, "
+            "root) through ==, != and is_head(); `ws` cases replace every delimiter of a serialization by other "
+            "white space (tab, CR, CRLF, VT, FF, FS, NEL, LS, PS, NBSP, ideographic space); spans/ids at 0, -1, -2, "
+            "2^31, 2^32, 2^63; odd white space and line-boundary characters inside forms and tfs strings; size "
+            "cases (40 tokens, 30 daughters, depth 25, 5000-character strings); one `api` battery (constructors, "
+            "defaults, foreign-object comparisons, error branches); in-place edit of the daughters list followed by "
+            "every helper again; sub-node serialization/parsing/navigation.")
     assumptions = [
         "scores are compared as '{:g}'.format(score) text; the float <-> text conversion is exercised on the "
         "implementation side only (model carries the printed text)",
@@ -528,7 +771,9 @@ class C16(Check):
         "parent pointers are compared through the annotation layer of the model (runP / fromDictP: number of the "
         "frame on top of the stack at creation) against the real `.parent` objects, numbered in pre-order; the "
         "pre-rebuild top object that depth-1 nodes point to is identified with the returned top by its shared "
-        "daughters list; object identity beyond that and is_head() are oracle-only",
+        "daughters list; object identity beyond that is oracle-only",
+        "== / is_head() are modelled with ASCII lower(); a pair of different entities containing a non-ASCII "
+        "character is answered 'unmodelled' (key eq) and not compared; to_dict(labels=…) is oracle-only",
     ]
     trusted_base = ["hand-written model lean/Verif/C16/Model.lean (scanner emulating _udf_re alternative by "
                     "alternative; stack machine; dict projection), tied to delphin.derivation by the correspondence "
@@ -620,8 +865,31 @@ class C16(Check):
 
     # ---- cases
     def cases(self, rng, tier, n):
-        for i, t in enumerate(enum_small_trees()):
-            yield {"kind": "tree", "tree": t, "indent": INDENTS[i % len(INDENTS)]}
+        yield {"kind": "api"}
+        small = enum_small_trees()
+        erng_ws = random.Random(61)
+        for i, t in enumerate(small):
+            yield {"kind": "tree", "tree": t, "indent": INDENTS[i % len(INDENTS)],
+                   "fields": FIELD_SETS[i % len(FIELD_SETS)]}
+        # every allowlist on two trees that carry every key (head, type, tokens, daughters, root)
+        full = R("root", [N(1, "a", "-1", 0, 2, [N(2, "b", "0.5", 0, 1, [T("x", [(1, "t"), (2, "u")])], True, "ty"),
+                                                  N(3, "c", "0", 1, 2, [T("y")], False, "u")], True, "p")])
+        for fs in FIELD_SETS:
+            yield {"kind": "tree", "tree": full, "indent": 1, "fields": fs}
+            yield {"kind": "tree", "tree": full["d"][0], "indent": None, "fields": fs}
+        # every delimiter character between the items of the text of that tree (UDF and UDX)
+        for w in WS_DELIMS:
+            for udx in (False, True):
+                yield ws_case(erng_ws, full if udx else full["d"][0], udx, w)
+        # == against one-point variants: every operation on a spread of the small trees
+        erng = random.Random(16)
+        for i, t in enumerate(small):
+            for j, op in enumerate(VARY_OPS):
+                if (i + j) % 4 == 0 or i >= len(small) - 12:
+                    b = vary(erng, t, op)
+                    c = eq_case(t, b, op) if b is not None else None
+                    if c is not None:
+                        yield c
         for s in HAND_TEXTS:
             yield {"kind": "text", "s": cps(s)}
         for d in HAND_DICTS:
@@ -632,14 +900,29 @@ class C16(Check):
         for _ in range(n):
             r = rng.random()
             if kinds:
-                r = {"tree": 0.1, "weird": 0.62, "lkb": 0.68, "text": 0.8, "dict": 0.95}[rng.choice(kinds)]
-            if r < 0.6:
+                r = {"tree": 0.1, "eq": 0.5, "weird": 0.62, "ws": 0.67, "lkb": 0.7, "text": 0.8, "dict": 0.95}[rng.choice(kinds)]
+            if r < 0.45:
                 gen = Gen(rng, allow_nl=rng.random() < 0.06, allow_paren=True)
                 t = gen.tree()
-                yield {"kind": "tree", "tree": t, "indent": rng.choice(INDENTS)}
+                yield {"kind": "tree", "tree": t, "indent": rng.choice(INDENTS), "fields": gen_fields(rng)}
+            elif r < 0.6:
+                t = Gen(rng).tree(dep=rng.choice([1, 2, 2, 3, 3, 4]), weird=rng.random() < 0.15)
+                op = rng.choice(VARY_OPS)
+                b = vary(rng, t, op)
+                if b is not None and rng.random() < 0.3:
+                    op2 = rng.choice(VARY_EQUAL)          # a second, equality-preserving change on top
+                    b2 = vary(rng, b, op2)
+                    if b2 is not None:
+                        b, op = b2, (op if op not in VARY_EQUAL else op2)
+                c = eq_case(t, b, op) if b is not None else None
+                yield c if c is not None else {"kind": "tree", "tree": t, "indent": rng.choice(INDENTS),
+                                               "fields": gen_fields(rng)}
             elif r < 0.66:
                 t = Gen(rng).tree(dep=rng.choice([1, 2, 3]), weird=True)
-                yield {"kind": "tree", "tree": t, "indent": rng.choice(INDENTS)}
+                yield {"kind": "tree", "tree": t, "indent": rng.choice(INDENTS), "fields": gen_fields(rng)}
+            elif r < 0.69:
+                t = Gen(rng, allow_nl=rng.random() < 0.2).tree(dep=rng.choice([1, 2, 3]))
+                yield ws_case(rng, t, rng.random() < 0.6)
             elif r < 0.72:
                 t = Gen(rng, allow_paren=False).tree(dep=rng.choice([1, 2, 3]))
                 for nd in walk(t):
@@ -681,7 +964,8 @@ class C16(Check):
                 yield {"kind": "dict", "d": d}
 
     def search_cases(self, rng, tier, n, seeds):
-        kinds = sorted({{"tree": "tree", "lkb": "lkb", "text": "text", "dict": "dict"}[c["kind"]] for c in seeds})
+        kinds = sorted({{"tree": "tree", "eq": "eq", "ws": "ws", "lkb": "lkb", "text": "text", "dict": "dict"}[c["kind"]]
+                        for c in seeds})
         yield from self.random_cases(rng, n, kinds or None)
 
     # ---- implementation
@@ -693,7 +977,23 @@ class C16(Check):
             udf = top.to_udf(indent=ind)
             udx = top.to_udx(indent=ind)
             d = top.to_dict()
+            extra = {}
+            if case.get("fields") is not None:
+                fl = list(case["fields"])
+                try:
+                    df = top.to_dict(fields=fl)
+                    extra["dict_f"] = {"ok": canon_dict(df)}
+                    extra["fd_f"] = guarded(lambda: obs(D.from_dict(df)))
+                except ValueError:
+                    extra["dict_f"] = {"err": "ValueError"}
+                    extra["fd_f"] = {"err": "ValueError"}
+            twin = build_top(case["tree"])
+            erased = build_top(erase_ht(case["tree"]))
             return {"udf": cps(udf), "udx": cps(udx),
+                    "heads": real_heads(top),
+                    "eq_self": guarded_eq(lambda: top == twin),
+                    "eq_erased": guarded_eq(lambda: top == erased),
+                    **extra,
                     "p_udf": guarded(lambda: obs(D.from_string(udf))),
                     "p_udx": guarded(lambda: obs(D.from_string(udx))),
                     "dict": canon_dict(d),
@@ -704,7 +1004,7 @@ class C16(Check):
                     "terminals": [obs(x) for x in top.terminals()],
                     "preterminals": [obs(x) for x in top.preterminals()],
                     "internals": [obs(x) for x in top.internals()]}
-        if k in ("text", "lkb"):
+        if k in ("text", "lkb", "ws"):
             s = uncps(case["s"])
             evs = []
             for m in D._udf_re.finditer(s[1:]):
@@ -721,6 +1021,12 @@ class C16(Check):
                     evs.append({"k": "none"})
             return {"scan": evs, "parse": guarded(lambda: obs(D.from_string(s))),
                     "parents": guarded_parents(lambda: D.from_string(s))}
+        if k == "api":
+            return {"api": "ran"}
+        if k == "eq":
+            a, b = build_top(case["a"]), build_top(case["b"])
+            return {"eq": guarded_eq(lambda: a == b), "eq_rev": guarded_eq(lambda: b == a),
+                    "heads_a": real_heads(a), "heads_b": real_heads(b)}
         if k == "dict":
             d = real_dict(case["d"])
             return {"fd": guarded(lambda: obs(D.from_dict(d))),
@@ -730,8 +1036,12 @@ class C16(Check):
     def model_request(self, case):
         k = case["kind"]
         if k == "tree":
-            return {"op": "tree", "tree": case["tree"], "indent": case["indent"]}
-        if k in ("text", "lkb"):
+            return {"op": "tree", "tree": case["tree"], "indent": case["indent"], "fields": case.get("fields")}
+        if k == "api":
+            return None
+        if k == "eq":
+            return {"op": "eq", "a": case["a"], "b": case["b"]}
+        if k in ("text", "lkb", "ws"):
             return {"op": "text", "s": case["s"]}
         return {"op": "dict", "d": case["d"]}
 
@@ -761,7 +1071,7 @@ class C16(Check):
                     k2 = "%s:%s" % (case["kind"], key)
                     self.unmodelled_skips[k2] = self.unmodelled_skips.get(k2, 0) + 1
                 continue
-            if key in ("p_udf", "p_udx", "fd", "parse", "terminals", "preterminals", "internals"):
+            if key in ("p_udf", "p_udx", "fd", "fd_f", "parse", "terminals", "preterminals", "internals"):
                 got = norm(got)
             if json.dumps(exp, sort_keys=True) != json.dumps(got, sort_keys=True):
                 diffs[key] = {"impl": exp, "model": got}
@@ -776,6 +1086,25 @@ class C16(Check):
             fails.append({"clause": clause, "detail": detail})
         if k == "tree":
             self._oracle_tree(case["tree"], fail)
+            self._oracle_fields(case, fail)
+        elif k == "eq":
+            self._oracle_eq(case, res, fail)
+        elif k == "api":
+            self._oracle_api(fail)
+            return fails
+        elif k == "ws":
+            # any white space between the items of a UDF/UDX text: the same derivation
+            s = uncps(case["s"])
+            want = case["tree"] if case["udx"] else erase_ht(case["tree"])
+            try:
+                p = D.from_string(s)
+            except Exception as e:
+                fail("from_string raises on a text with other white space between items", repr((s, type(e).__name__)))
+                return fails
+            if obs(p) != want:
+                fail("a text with other white space between items does not parse to the same tree", repr(s))
+            elif (p.to_udx(indent=None) if case["udx"] else p.to_udf(indent=None)) != case["plain"]:
+                fail("a text with other white space between items is not re-serialized to the plain text", repr(s))
         elif k == "lkb":
             # LKB-style terminals: positions are ignored, the tree is the token-free tree
             s = uncps(case["s"])
@@ -799,7 +1128,7 @@ class C16(Check):
                     fail("unexpected TypeError", key)
         # PURITY for texts and dictionaries: the same input gives the same result after a call on the
         # case-swapped input
-        if k in ("text", "lkb"):
+        if k in ("text", "lkb", "ws"):
             s = uncps(case["s"])
             r1 = guarded(lambda: obs(D.from_string(s)))
             r_sw = guarded(lambda: obs(D.from_string(s.swapcase())))
@@ -837,6 +1166,117 @@ class C16(Check):
             if not (r1 == r2 == res["fd"]):
                 fail("from_dict is not a function of its dictionary (result changed after other calls)", "")
         return fails
+
+    def _oracle_eq(self, case, res, fail):
+        """"structural equality ignoring ids and scores": a one-point variant that differs only in node ids, scores,
+        token ids or the letter case of an entity is == the tree; one that differs in an entity, type, span, form,
+        token tfs, number of tokens/daughters is not; != is the negation; == is symmetric"""
+        a, b, op = case["a"], case["b"], case["op"]
+        A, B = build_top(a), build_top(b)
+        e1, e2 = guarded_eq(lambda: A == B), guarded_eq(lambda: B == A)
+        n1, n2 = guarded_eq(lambda: A != B), guarded_eq(lambda: B != A)
+        if mixed(a) or mixed(b):
+            return
+        for v in (e1, e2, n1, n2):
+            if "err" in v:
+                fail("== / != raises on trees without mixed daughters", repr((op, v)))
+                return
+        if e1 != e2 or n1 != n2:
+            fail("== is not symmetric", op)
+        if e1["ok"] == n1["ok"]:
+            fail("!= is not the negation of ==", op)
+        if op in VARY_EQUAL and not e1["ok"]:
+            fail("trees that differ only in ids, scores, token ids or entity case are not ==", op)
+        if op in VARY_UNEQUAL and e1["ok"]:
+            fail("trees that differ in an entity, type, span, form, tfs or in shape are ==", op)
+        # is_head(): a marked node, a root, the top and an only daughter are heads; a sibling of a marked node is
+        # not; otherwise indeterminate (naive walk over the case JSON)
+        for t, top in ((a, A), (b, B)):
+            want = []
+
+            def rec(n, sibs):
+                if n["k"] == "t":
+                    return
+                if n["k"] == "r" or n["h"] or sibs is None or len(sibs) == 1:
+                    want.append(True)
+                elif any(x.get("h") for x in sibs):
+                    want.append(False)
+                else:
+                    want.append(None)
+                for x in n["d"]:
+                    rec(x, n["d"])
+            rec(t, None)
+            if real_heads(top) != want:
+                fail("is_head() differs from the head marks of the tree", repr(real_heads(top)))
+
+    def _oracle_fields(self, case, fail):
+        """to_dict(fields=…): the dictionary restricted to the allowlist at EVERY level (form and daughters always
+        shown); an unknown name is a ValueError; the default is all fields; labels=None/[] add nothing"""
+        t = case["tree"]
+        if not dict_shape(t):
+            return
+        top = build_top(t)
+        full = top.to_dict()
+        if not _dict_eq(top.to_dict(fields=D._all_fields, labels=None), full) \
+                or not _dict_eq(top.to_dict(D._all_fields), full) or not _dict_eq(top.to_dict(labels=[]), full):
+            fail("to_dict() differs from to_dict(fields=_all_fields, labels=None)", "")
+        fl = case.get("fields")
+        sets = [fl] if fl is not None else []
+        # two more allowlists derived from the tree itself, so that every tree meets a dropped and a kept key
+        h = sum(len(n.get("d", [])) + len(n.get("toks", [])) for n in walk(t))
+        sets.append([OPTIONAL_FIELDS[h % 8]])
+        sets.append([f for f in ALL_FIELDS if f != OPTIONAL_FIELDS[(h + 3) % 8]])
+        for fs in sets:
+            bad = [f for f in fs if f not in ALL_FIELDS]
+            for arg in (list(fs), tuple(fs), iter(list(fs))):
+                try:
+                    got = top.to_dict(fields=arg)
+                except ValueError:
+                    if not bad:
+                        fail("to_dict(fields=…) raises on valid field names", repr(fs))
+                    continue
+                if bad:
+                    fail("to_dict(fields=…) accepts an unknown field name", repr(fs))
+                elif not _dict_eq(got, restrict_dict(full, set(fs))):
+                    fail("to_dict(fields=…) is not the dictionary restricted to the allowlist", repr((fs, got)))
+        # sub-nodes: the same on a daughter
+        for dn, dt in zip(top.daughters, t["d"]):
+            if isinstance(dn, D.UDFNode):
+                fs = sets[-1]
+                if not _dict_eq(dn.to_dict(fields=fs), restrict_dict(dn.to_dict(), set(fs))):
+                    fail("to_dict(fields=…) of a daughter is not its dictionary restricted to the allowlist", repr(fs))
+                break
+        # labels: one label per node id, nested like the tree; they land on the entries with that id and change
+        # nothing else (ids unique, no token id equal to a node id)
+        ids_ = [n["id"] for n in walk(t) if n["k"] == "n"]
+        tokids = [i for n in walk(t) if n["k"] == "t" for i, _ in n["toks"]]
+        if len(set(ids_)) == len(ids_) and not set(ids_) & set(tokids):
+            def lab(n):
+                if n["k"] == "t":
+                    return ["w"]
+                return ["R" if n["k"] == "r" else "L%d" % n["id"]] + [lab(x) for x in n["d"]]
+
+            def strip(d):
+                d = {k_: v for k_, v in d.items() if k_ != "label"}
+                if "daughters" in d:
+                    d["daughters"] = [strip(x) for x in d["daughters"]]
+                return d
+
+            def labels_of(d, out):
+                out.append((d.get("id"), d.get("label")))
+                for x in d.get("daughters", []):
+                    labels_of(x, out)
+                return out
+            try:
+                dl = top.to_dict(labels=lab(t))
+            except Exception as e:
+                fail("to_dict(labels=…) raises on labels shaped like the tree", type(e).__name__)
+                return
+            if not _dict_eq(strip(dl), full):
+                fail("to_dict(labels=…) changes keys other than 'label'", repr(dl))
+            want = [(None, "R") if n["k"] == "r" else (n["id"], "L%d" % n["id"]) for n in walk(t) if n["k"] != "t"]
+            if labels_of(dl, []) != want:
+                fail("to_dict(labels=…) does not put each label on the entry of its node", repr(labels_of(dl, [])))
 
     def _attr_diff(self, a, b, path="top"):
         """first attribute in which two real trees differ (naive parallel walk), or None"""
@@ -970,6 +1410,7 @@ class C16(Check):
         snapshot = copy.deepcopy(first_dict)
         first_fd = guarded(lambda: obs(D.from_dict(first_dict))) if shape else None
         self._oracle_tree_battery(t, top, shape, erased, fail)
+        self._oracle_inplace(t, fail)
         # a DIFFERENT derivation in between: the same tree with the letter case of every name swapped;
         # it must itself round-trip exactly …
         sw = swap_tree(t)
@@ -989,6 +1430,132 @@ class C16(Check):
                      repr(first_dict))
             if not _dict_eq(first_dict, snapshot):
                 fail("from_dict changed the dictionary it was given", repr(snapshot))
+
+    def _oracle_api(self, fail):
+        """constructors, defaults, comparisons with foreign objects and error branches of the glue code (one
+        deterministic battery per run)"""
+        def raises(f, exc):
+            try:
+                f()
+            except exc:
+                return True
+            except Exception:
+                return False
+            return False
+        # UDFTerminal: tokens default to a FRESH empty list
+        a, b, c = D.UDFTerminal("x"), D.UDFTerminal("y", None), D.UDFTerminal("z", tokens=None)
+        if a.tokens != [] or b.tokens != [] or a.tokens is b.tokens or b.tokens is c.tokens:
+            fail("UDFTerminal without tokens does not get a fresh empty list", "")
+        a.tokens.append(D.UDFToken(1, "t"))
+        if D.UDFTerminal("w").tokens != [] or b.tokens != [] or a.parent is not None:
+            fail("UDFTerminal without tokens shares its list with another terminal", "")
+        if a.is_root() is not False or a.to_udf(indent=None) != '("x" 1 "t")' or str(b) != '("y")':
+            fail("UDFTerminal.is_root()/to_udf() wrong", "")
+        # UDFToken: id converted with int(); == compares the tfs only; foreign objects are unequal
+        tk = D.UDFToken("7", "a")
+        if tk.id != 7 or tk.tfs != "a" or not (tk == D.UDFToken(2, "a")) or tk == D.UDFToken(7, "b") \
+                or tk == "a" or not (tk != "a") or tk == 7 or tk == None:  # noqa: E711
+            fail("UDFToken conversion / equality wrong", "")
+        # UDFNode: defaults, conversions, fresh daughters list, comparisons with foreign objects
+        n1, n2 = D.UDFNode(1, "a"), D.UDFNode("2", "b", "0.5", "3", "4")
+        r = D.UDFNode(None, "r")
+        if (n1.id, n1.score, n1.start, n1.end, n1.daughters, n1.type, n1._head, n1.parent) != \
+                (1, -1.0, -1, -1, [], None, None, None) or type(n1.score) is not float:
+            fail("UDFNode defaults wrong", repr(tuple(n1)))
+        if tuple(n2[:5]) != (2, "b", 0.5, 3, 4) or [type(x) for x in n2[:5]] != [int, str, float, int, int]:
+            fail("UDFNode does not convert id/score/start/end", repr(tuple(n2)))
+        if n1.daughters is n2.daughters or (r.id, r.score, r.start, r.end) != (None, None, None, None) \
+                or not r.is_root() or n1.is_root():
+            fail("UDFNode root / daughters defaults wrong", "")
+        if n1.to_udf(indent=None) != "(1 a -1 -1 -1)" or D.UDFNode(0, "z", 0, 0, 0).to_udf(indent=None) != "(0 z 0 0 0)":
+            fail("to_udf of a node with default / zero fields wrong", "")
+        top = build_top(N(1, "a", "-1", 0, 1, [T("x")]))
+        term = top.daughters[0]
+        for other in (1, "a", None, [term], {"id": 1}):
+            if top == other or not (top != other) or term == other or not (term != other):
+                fail("a node compares equal to a foreign object", repr(other))
+        if top == term or term == top or not (top != term) or not (term != top):
+            fail("a node compares equal to a terminal", "")
+        if not raises(lambda: D.UDFNode(1, "x", daughters=[r]), ValueError):
+            fail("UDFNode accepts a root node as a daughter", "")
+        # Derivation: the checks on a root top
+        pre = D.UDFNode(1, "a", daughters=[D.UDFTerminal("x")])
+        for args, kw, exc in (((None, "r"), dict(score=1.0, daughters=[pre]), TypeError),
+                              ((None, "r"), dict(start=0, daughters=[pre]), TypeError),
+                              ((None, "r"), dict(end=0, daughters=[pre]), TypeError),
+                              ((None, "r"), dict(), ValueError), ((None, "r"), dict(daughters=[]), ValueError),
+                              ((None, "r"), dict(daughters=[pre, pre]), ValueError),
+                              ((None, "r"), dict(daughters=[D.UDFTerminal("x")]), ValueError)):
+            if not raises(lambda: D.Derivation(*args, **kw), exc):
+                fail("Derivation accepts an ill-formed root", repr(kw.keys()))
+        ok = D.Derivation(None, "r", daughters=[pre])
+        if ok.to_udf(indent=None) != '(r (1 a -1 -1 -1 ("x")))' or not ok.is_root():
+            fail("Derivation with a root top wrong", "")
+        # from_dict: ids given as strings are converted
+        q = D.from_dict({"entity": "a", "id": "3", "score": "0.5", "start": "0", "end": "1", "form": "x",
+                         "tokens": [{"id": "2", "tfs": "t"}]})
+        if (q.id, q.score, q.start, q.end, q.daughters[0].tokens[0].id) != (3, 0.5, 0, 1, 2):
+            fail("from_dict does not convert numeric strings", "")
+        if not raises(lambda: D.from_dict({"entity": "a", "id": 1}), ValueError) \
+                or not raises(lambda: D.from_dict({"id": 1, "form": "x"}), KeyError):
+            fail("from_dict error branches wrong", "")
+        # serializer: an alien daughter is a TypeError
+        bad = D.UDFNode(1, "a")
+        bad.daughters.append("alien")
+        if not raises(lambda: bad.to_udf(), TypeError) or not raises(lambda: bad.to_udx(indent=None), TypeError):
+            fail("to_udf of a node with a foreign daughter does not raise TypeError", "")
+        # labels that do not match the structure; unknown field together with labels
+        two = build_top(N(1, "a", "-1", 0, 2, [N(2, "b", "0", 0, 1, [T("x")]), N(3, "c", "0", 1, 2, [T("y")])]))
+        if not raises(lambda: two.to_dict(labels=["S", ["B", ["x"]]]), ValueError) \
+                or not raises(lambda: two.to_dict(labels=["S", ["B"], ["C"], ["D"]]), ValueError) \
+                or not raises(lambda: two.to_dict(fields=["nope"], labels=["S"]), ValueError):
+            fail("to_dict does not reject labels that do not match the structure / unknown fields", "")
+        if two.to_dict(labels=["S"]).get("label") != "S" or "label" in two.to_dict(labels=["", ["B", ["x"]], ["C"]]):
+            fail("to_dict(labels=…) with partial labels wrong", "")
+        # helpers of the parser
+        if D._unquote(None) is not None or D._unquote('"a"') != "a" or D._unquote("a") != "a" \
+                or D._unquote('""') != "" or D._unquote('"a\nb"') != "a\nb" or D._unquote('"') != '"':
+            fail("_unquote wrong on None / quoted / unquoted input", "")
+        if D._udf_tokens("") != [] or D._udf_tokens(None) != [] \
+                or [(t.id, t.tfs) for t in D._udf_tokens(' 1 "a" 22 "b c"')] != [(1, "a"), (22, "b c")]:
+            fail("_udf_tokens wrong on empty input", "")
+        for bad_s in ("", "x", "(1 a -1 0 1 (\"x\")", "1 a -1 0 1 (\"x\"))", "(1 a -1 0 1 (\"x\"))\n", " (r)"):
+            if not raises(lambda: D.from_string(bad_s), D.DerivationSyntaxError):
+                fail("from_string does not raise DerivationSyntaxError on a text not enclosed in parentheses", bad_s)
+
+    def _oracle_inplace(self, t, fail):
+        """EDIT IN PLACE, THEN CALL AGAIN: append a preterminal to the daughters of the topmost non-root node; the
+        navigation helpers, serializers and to_dict must show the tree as it is now (= a freshly built one); remove
+        it again: everything as before"""
+        host_t = t["d"][0] if t["k"] == "r" else t
+        if host_t["k"] != "n" or not host_t["d"] or any(d["k"] == "t" for d in host_t["d"]):
+            return
+        top = build_top(t)
+        host = top.daughters[0] if t["k"] == "r" else top
+
+        def snap(x):
+            return ([id(n) for n in x.terminals()], [id(n) for n in x.preterminals()], [id(n) for n in x.internals()],
+                    x.to_udf(indent=None), x.to_udx(indent=2), x.to_dict(), real_heads(x))
+        before = snap(top)
+        new_t = N(777, "zz", "0.5", 8, 9, [T("new", [(5, "tk")])], True, "nt")
+        t2 = copy.deepcopy(t)
+        (t2["d"][0] if t["k"] == "r" else t2)["d"].append(new_t)
+        host.daughters.append(build(new_t, host))
+        fresh = build_top(t2)
+        if (top.to_udf(indent=None), top.to_udx(indent=2)) != (fresh.to_udf(indent=None), fresh.to_udx(indent=2)):
+            fail("after appending a daughter in place the text is not that of the tree as it is now", "")
+        if not _dict_eq(top.to_dict(), fresh.to_dict()):
+            fail("after appending a daughter in place to_dict() is not that of the tree as it is now", "")
+        for nm in ("terminals", "preterminals", "internals"):
+            if [obs(x) for x in getattr(top, nm)()] != [obs(x) for x in getattr(fresh, nm)()]:
+                fail("after appending a daughter in place %s() is not that of the tree as it is now" % nm, "")
+        if real_heads(top) != real_heads(fresh):
+            fail("after appending a daughter in place is_head() is not that of the tree as it is now", "")
+        self._nav(top, dict_shape(t2), "edited in place", fail)
+        host.daughters.pop()
+        after = snap(top)
+        if before[:5] != after[:5] or not _dict_eq(before[5], after[5]) or before[6] != after[6]:
+            fail("after removing the appended daughter again the helpers/serializers differ from before", "")
 
     def _oracle_tree_battery(self, t, top, shape, erased, fail):
         if obs(top) != t:
@@ -1021,11 +1588,40 @@ class C16(Check):
                 if ind in (None, 2):
                     self._nav(p, shape, "parsed " + name, fail)
                     self._parents(p, "parsed " + name, fail)
+                    if not mixed(t) and real_heads(p) != real_heads(ref):
+                        fail("is_head() of the parsed %s tree differs from the original's" % name, repr(text))
                 # str() is to_udf(indent=None)
             if str(top) != top.to_udf(indent=None):
                 fail("str(t) is not to_udf(indent=None)", "")
         self._nav(top, shape, "constructed", fail)
         self._parents(top, "constructed", fail)
+        # default arguments
+        if top.to_udf() != top.to_udf(indent=1) or top.to_udx() != top.to_udx(indent=1):
+            fail("to_udf()/to_udx() without argument is not indent=1", "")
+        # sub-nodes are nodes too: serialization, parsing and navigation of the last non-terminal daughter
+        # (and of its last non-terminal daughter)
+        sub, st = top, t
+        for _ in range(2):
+            cand = [(x, y) for x, y in zip(sub.daughters, st["d"]) if isinstance(x, D.UDFNode)]
+            if not cand:
+                break
+            sub, st = cand[-1]
+            sshape = dict_shape(st)
+            self._nav(sub, sshape, "a sub-node", fail)
+            for udx in (False, True):
+                text = sub.to_udx(indent=2) if udx else sub.to_udf(indent=None)
+                try:
+                    p = D.from_string(text)
+                except Exception as e:
+                    fail("from_string raises on the text of a sub-node", repr((text, type(e).__name__)))
+                    continue
+                if obs(p) != (st if udx else erase_ht(st)):
+                    fail("the text of a sub-node does not parse to that sub-node", repr(text))
+                if (p.to_udx(indent=None) if udx else p.to_udf(indent=4)) != \
+                        (sub.to_udx(indent=None) if udx else sub.to_udf(indent=4)):
+                    fail("re-serialized text of a sub-node differs", repr(text))
+            if sshape and obs(D.from_dict(sub.to_dict())) != st:
+                fail("from_dict(to_dict(sub-node)) differs from the sub-node", "")
         # constructor invariant: a root cannot be passed as a daughter
         if t["k"] == "r":
             try:
@@ -1049,6 +1645,8 @@ class C16(Check):
                 fail("from_dict(to_dict(t)) differs from t in an attribute", repr((ad, d)))
             elif not (q == top) or (q != top):
                 fail("from_dict(to_dict(t)) is not == t", repr(d))
+            if real_heads(q) != real_heads(top):
+                fail("is_head() of from_dict(to_dict(t)) differs from the original's", repr(d))
             if canon_dict(q.to_dict()) != canon_dict(d) or not _dict_eq(q.to_dict(), d):
                 fail("to_dict(from_dict(to_dict(t))) != to_dict(t)", repr((d, q.to_dict())))
             self._nav(q, shape, "from_dict", fail)
@@ -1064,7 +1662,7 @@ class C16(Check):
 
     # ---- evidence
     def nontrivial_key(self, case, res):
-        if case["kind"] == "tree" or case.get("s") or case.get("d"):
+        if case["kind"] in ("tree", "eq") or case.get("s") or case.get("d"):
             return json.dumps(case, sort_keys=True)
         return None
 
@@ -1116,8 +1714,18 @@ class C16(Check):
                 inc("tree:same-name-in-two-capitalisations")
             if any(x.lower() != x for n in nodes if n["k"] != "t" for x in [uncps(n["e"])]):
                 inc("tree:entity-with-upper-case")
+            fl = case.get("fields")
+            inc("fields:" + ("default" if fl is None else "invalid-name" if any(f not in ALL_FIELDS for f in fl)
+                             else "n=%d" % len(set(fl) & set(OPTIONAL_FIELDS))))
+        if k == "eq":
+            inc("eq:op=" + case["op"])
+            inc("eq:" + ("mixed" if mixed(case["a"]) or mixed(case["b"]) else "uniform"))
+            if isinstance(res, dict):
+                inc("eq:result=%s" % res["eq"].get("ok", res["eq"].get("err")))
         if isinstance(res, dict):
-            for key in ("p_udf", "p_udx", "fd", "parse"):
+            for h in (res.get("heads") or []) + (res.get("heads_a") or []) + (res.get("heads_b") or []):
+                inc("is_head:%s" % h)
+            for key in ("p_udf", "p_udx", "fd", "fd_f", "dict_f", "parse"):
                 v = res.get(key)
                 if isinstance(v, dict):
                     inc("%s:%s" % (key, v.get("err", "ok")))
